@@ -53,8 +53,9 @@ def parse_set(s):
     if dup: s = s[:-4].strip()
     if not s.startswith("sols"): return None, dup
     body = s[4:].strip()
-    if body in ("-", ""): return set(), dup
-    return set(tuple(int(x) for x in t.split(",")) for t in body.split(" ")), dup
+    if body == "-": return set(), dup
+    if body == "": return {()}, dup              # a model without variables: the one (empty) assignment
+    return set(tuple(int(x) for x in t.split(",") if x != "") for t in body.split(" ")), dup
 
 def parse_spec(spec):
     body = spec[len("all "):] if spec.startswith("all ") else spec
@@ -63,7 +64,7 @@ def parse_spec(spec):
         body, o = body.split(" obj ")
         objs = [] if o.strip() == "-" else [int(x) for x in o.split(" ")]
     body = body.strip()
-    sols = [] if body in ("-", "") else [tuple(int(x) for x in t.split(",")) for t in body.split(" ")]
+    sols = [] if body == "-" else [()] if body == "" else [tuple(int(x) for x in t.split(",") if x != "") for t in body.split(" ")]
     return sols, objs
 
 def entry_of(case):
@@ -90,7 +91,7 @@ def judge_msolve(case, impl, spec):
     if impl.startswith("err "):
         return None if not allset else "%s although the tree has %d satisfying assignments" % (impl, len(allset))
     if not impl.startswith("one "): return "unexpected implementation output: " + impl
-    t = tuple(int(x) for x in impl[4:].split(","))
+    t = tuple(int(x) for x in impl[4:].split(",") if x.strip() != "")
     if t not in allset: return "returned assignment %s does not satisfy the expression tree" % (t,)
     if e[0] in ("min", "max"):
         i = int(e[1].lstrip("x"))
